@@ -45,7 +45,7 @@ class C08(Engine):
         "case = initial layout (4 command names x 5 PATH directories + symlinked directory + relative directory under two working directories, entry kinds exec / non-exec / directory / "
         "symlink to exec / symlink to non-exec / dangling symlink / symlink to directory) x initial $PATH (absolute, trailing slash, symlinked, dotted, relative, '.', empty, missing, file, duplicates; "
         "also unset) x settings ($ENABLE_COMMANDS_CACHE, $COMMANDS_CACHE_SAVE_INTERMEDIATE, mtime granularity fine/1s/2s) x history of 4-40 steps from create / delete / rename / chmod +-x / chmod of a "
-        "symlink target / directory mode 000-755 / directory vanishes-reappears / $PATH append-prepend-remove-swap-assign-delete / cd / alias add-remove / clock step (0, ms, s, h, backwards) / cache restart "
+        "symlink target / directory mode 000-755 / directory vanishes-reappears / $PATH append-prepend-remove-swap-assign-delete / cd / alias add-remove / re-pointing of the symlinked PATH directory / clock step (0, ms, s, h, backwards) / cache restart "
         "from the persisted file (intact, truncated, garbage) / lookup of a bare name or explicit path through all views. non-trivial = a lookup after >=1 change since the previous lookup of the same name; "
         "distinct = distinct (settings, step kinds, entry kinds, PATH forms) histories"
     )
@@ -63,7 +63,7 @@ class C08(Engine):
         "real": ["procs.executables locate_executable / locate_file_in_path_env / locate_relative_path / clear_paths / get_paths / is_executable_in_posix", "commands_cache.CommandsCache (update_cache, _update_paths_cache, _iter_binaries, locate_binary, __contains__, iter_commands, cache file load/save)", "procs.specs.SubprocSpec.build -> resolve_binary_loc", "completers.commands.complete_command (sampled)", "environ.Env / EnvPath ($PATH edits, detype)", "real file system, real execvp and /bin/sh for oracle cross-checks, kernel permission checks (uid 65534)"],
         "stub": ["clock: directory mtimes are written with os.utime from the simulated clock", "session restart = a new CommandsCache over the same cache directory"],
     }
-    expected_probes = ["lookup_found", "lookup_notfound", "shadow_noexec_skipped", "shadow_dir_skipped", "shadow_broken_skipped", "symlink_entry_wins", "symlinked_pathdir", "relative_pathdir", "empty_entry", "missing_dir_entry", "duplicate_entry", "path_unset", "cwd_decoy_present", "explicit_path", "same_tick_change", "chmod_change", "clock_backwards", "cache_restart", "cache_file_corrupt", "dir_unreadable", "dir_vanished", "oracle_crosscheck_exec", "oracle_crosscheck_sh", "cache_disabled"]
+    expected_probes = ["lookup_found", "lookup_notfound", "shadow_noexec_skipped", "shadow_dir_skipped", "shadow_broken_skipped", "symlink_entry_wins", "symlinked_pathdir", "relative_pathdir", "empty_entry", "missing_dir_entry", "duplicate_entry", "path_unset", "cwd_decoy_present", "explicit_path", "same_tick_change", "chmod_change", "clock_backwards", "cache_restart", "cache_file_corrupt", "dir_unreadable", "dir_vanished", "oracle_crosscheck_exec", "oracle_crosscheck_sh", "cache_disabled", "symlink_repointed"]
 
     def warmup(self):
         procworld.warm(extra_traced=())
@@ -123,6 +123,8 @@ class C08(Engine):
             if q < 0.96:
                 return {"k": "path", "how": "assign", "v": self._gen_pathlist(rng), "as_str": rng.random() < 0.3}
             return {"k": "path", "how": "delete"}
+        if r < 0.835:
+            return {"k": "relink", "to": rng.choice(("p1", "p2", "p3", "missing"))}
         if r < 0.85:
             return {"k": "cd", "to": rng.choice(("cwd0", "cwd1"))}
         if r < 0.88:
@@ -673,6 +675,15 @@ class C08(Engine):
             self.path_edit_pending = True
             self._touch_names()
             self.trace.append(("path", how, env.detype().get("PATH", "<unset>").replace(R, "@")))
+        elif k == "relink":
+            # the symlinked PATH directory is re-pointed (a `current -> v2` style switch)
+            os.unlink(f"{R}/lnk")
+            os.symlink(op["to"], f"{R}/lnk")
+            self.clock += self.autostep
+            self.probes["symlink_repointed"] = self.probes.get("symlink_repointed", 0) + 1
+            self._fault("pathdir_symlink_repointed")
+            self._touch_names()
+            self.trace.append(("relink", op["to"]))
         elif k == "cd":
             os.chdir(f"{R}/{op['to']}")
             env["PWD"] = os.getcwd()
